@@ -8,6 +8,7 @@ pbt/refdecode.py plus the decomposition matcher described in DESIGN C02.
 from __future__ import annotations
 
 import json
+import os
 from typing import Any
 
 from hypothesis import strategies as st
@@ -19,7 +20,7 @@ from ..core import Check, HarnessError, Layer, Outcome, Violation
 # When True, the generator replaces buffered-path fill schedules that produce the D1 shape (multi-byte separator,
 # LimitOverrunError raised while the receive buffer is exactly one byte short of full) and counts them in the class
 # `d1-shape-excluded`.  run_case itself never filters, so the saved replay keeps failing until /repo is repaired.
-EXCLUDE_D1 = True
+EXCLUDE_D1 = os.environ.get("VERIF_C02_EXCLUDE_D1", "1") != "0"  # development override: =0 searches the D1 shape too
 
 FILLER = 0x7A  # 'z': in no separator of the zoo
 
@@ -495,7 +496,7 @@ CHECK = Check(
         "size-rejected frame is followed by at least one good frame and a generated cut falls strictly inside that frame "
         "or its terminator; distinct = sha1 of the canonical case JSON"
     ),
-    layers=[Layer("frames", st_case, run_case, {"quick": 1200, "thorough": 5000})],
+    layers=[Layer("frames", st_case, run_case, {"quick": 2000, "thorough": 6000})],
     assumptions=[
         "payloads never contain the separator (documented precondition); streams end on a frame boundary",
         "self-delimiting formats (raw JSON, file-based, length-prefixed, fixed-size) have no terminator to resynchronise on, so "
